@@ -31,7 +31,7 @@ _B.CLASSES["ComponentsTuple"] = construct_components
 def call_abstract(eng, st, f, pos, kw):
     if f.a == "add_cons_vars_to_problem":
         tr = st.ghost.get("trace", ())
-        return [("ok", st.setghost("trace", tr + (("add", tuple(pos)),)), NONE)]
+        return [("ok", st.setghost("trace", tr + ((f.a, tuple(pos), tuple(sorted(kw.items(), key=lambda x: x[0]))),)), NONE)]
     return None
 
 
@@ -52,7 +52,7 @@ def _post(E):
     lower = N.term("call(lb,name)", N.term("attr.Constraint", prob), N.term("add", expr, var), diff, cname("abs_neg_"))
     tr = E.s1.ghost.get("trace", ())
     want_add = isinstance(E["add"], VBool) and z3.is_true(z3.simplify(E["add"].t))
-    added = (len(tr) == 1 and tr[0][0] == "add" and len(tr[0][1]) == 2 and tr[0][1][1] is res) if want_add else len(tr) == 0
+    added = (len(tr) == 1 and tr[0][0] == "add_cons_vars_to_problem" and len(tr[0][1]) == 2 and tr[0][1][1] is res) if want_add else len(tr) == 0
     ok = all(isinstance(rec.get("attr:" + n), N.VNp) for n in ("variable", "upper_constraint", "lower_constraint"))
     if not ok:
         return z3.BoolVal(False)
